@@ -229,6 +229,19 @@ impl EncoderState {
     }
 }
 
+#[cfg(feature = "pkhuong_woodpile_verif")]
+impl EncoderState {
+    /// Abstract state for verification: (max chunk size, bytes in the
+    /// current chunk, whether a 0xFE byte is held back).
+    pub fn verif_key(&self) -> (usize, usize, bool) {
+        (
+            self.max_chunk_size.get(),
+            self.current_chunk_size,
+            self.maybe_mid_stuff,
+        )
+    }
+}
+
 #[cfg(test)]
 fn encode_with_test_params(bytes: &[u8]) -> Vec<u8> {
     let mut iovec = OwningIovec::new();
